@@ -218,6 +218,10 @@ func (ex *Exec) callCommon(st *State, instr ssa.CallInstruction, c *ssa.CallComm
 		ex.havocEverything(st)
 		ex.havocEscapedAddrs(st, argVals)
 	}
+	if !ex.pureMode && !ex.havockedAllAt(rec, st) {
+		// a callee that receives function values may call them: their effects are the caller's business
+		ex.funcArgEffects(st, key, c, argVals)
+	}
 	if !ex.pureMode {
 		for i, t := range resTypes {
 			if i < len(results) {
@@ -500,4 +504,112 @@ func (ex *Exec) onceDoReadOnly(c *ssa.CallCommon) bool {
 	}
 	f, ok := mc.Fn.(*ssa.Function)
 	return ok && ex.P.readOnly(f)
+}
+
+
+// havockedAllAt: the call already havocked the whole heap (epoch changed), nothing to add.
+func (ex *Exec) havockedAllAt(rec *callRec, st *State) bool {
+	return rec.pre != nil && rec.pre.epoch != st.epoch
+}
+
+// funcArgEffects: effects of function values passed as arguments (the callee may invoke them any number of
+// times). Closure with a contract: havoc its modifies footprint and its captured cells; function proved
+// read-only: nothing; anything else: havoc the whole heap. (sort.Slice and sync.Once.Do are handled before.)
+func (ex *Exec) funcArgEffects(st *State, key string, c *ssa.CallCommon, argVals []ssa.Value) {
+	g := ex.g
+	if key == "sort.Slice" || (key == "sync.Once.Do" && ex.onceDoReadOnly(c)) {
+		return
+	}
+	for _, a := range argVals {
+		if _, isSig := a.Type().Underlying().(*types.Signature); !isSig {
+			continue
+		}
+		var fn *ssa.Function
+		var mc *ssa.MakeClosure
+		switch v := a.(type) {
+		case *ssa.Function:
+			fn = v
+		case *ssa.MakeClosure:
+			mc = v
+			fn, _ = v.Fn.(*ssa.Function)
+		default:
+			if m, ok := ex.closures[a]; ok {
+				mc = m
+				fn, _ = m.Fn.(*ssa.Function)
+			} else if ct, isCT := a.(*ssa.ChangeType); isCT {
+				if m, ok := ex.closures[ct.X]; ok {
+					mc = m
+					fn, _ = m.Fn.(*ssa.Function)
+				} else if f, ok := ct.X.(*ssa.Function); ok {
+					fn = f
+				}
+			}
+			if c, isConst := a.(*ssa.Const); isConst && c.IsNil() {
+				continue
+			}
+		}
+		if fn == nil {
+			g.note("function value of unknown origin passed to " + shortKey(key) + ": heap havocked")
+			ex.havocEverything(st)
+			return
+		}
+		con := ex.P.Contracts[funcKey(fn)]
+		if con != nil && con.Pure {
+			continue
+		}
+		if con == nil || con.ModAll {
+			if con == nil && ex.P.readOnly(fn) {
+				continue
+			}
+			g.note("closure/function " + shortKey(funcKey(fn)) + " passed to " + shortKey(key) + " has no limited modifies clause: heap havocked")
+			ex.havocEverything(st)
+			return
+		}
+		// contract with a limited modifies clause: havoc that footprint (evaluated with the captured cells bound)
+		env := &Env{g: g, ex: ex, vars: map[string]Val{}, st: st, old: st, pkgPath: con.Pkg, atCallSite: true}
+		if env.pkgPath == "" {
+			env.pkgPath = g.pkgPath
+		}
+		if mc != nil {
+			for i, fv := range fn.FreeVars {
+				elem := fv.Type().(*types.Pointer).Elem()
+				env.vars[fv.Name()] = Val{"cell:" + ex.val(mc.Bindings[i]), GType{T: elem}}
+			}
+		}
+		// parameters of the closure are unknown at this point: entries mentioning them cannot be evaluated
+		ok := true
+		func() {
+			defer func() {
+				if r := recover(); r != nil {
+					if _, isSpec := r.(specErr); isSpec {
+						ok = false
+						return
+					}
+					if _, isUns := r.(unsupported); isUns {
+						ok = false
+						return
+					}
+					panic(r)
+				}
+			}()
+			for _, m := range con.Mod {
+				for _, lv := range env.lvalues(m) {
+					if lv.base == "" {
+						g.havocComp(st, lv.comp)
+						continue
+					}
+					sortS := g.comps[lv.comp]
+					es := strings.TrimSuffix(strings.TrimPrefix(sortS, "(Array Int "), ")")
+					fv := g.freshConst("hv", es)
+					g.set(st, lv.comp, fmt.Sprintf("(store %s %s %s)", g.get(st, lv.comp), lv.base, fv))
+				}
+			}
+		}()
+		if !ok {
+			g.note("modifies clause of closure " + shortKey(funcKey(fn)) + " mentions its parameters: heap havocked at the call of " + shortKey(key))
+			ex.havocEverything(st)
+			return
+		}
+		g.note("closure " + shortKey(funcKey(fn)) + " passed to " + shortKey(key) + ": its modifies footprint is havocked at the call")
+	}
 }
